@@ -69,7 +69,30 @@ CLAIMS = {
         "technique": "TLA+ edit-history state machines model-checked with TLC; generated behaviours replayed on the code with full-state comparison",
         "design_ref": "6/C15",
     },
+    "C02": {
+        "text": ("Belief-update message passing on a clique tree is a TLA+ state machine (spec/MNLib.tla: Send, Calibrated) over the exact "
+                 "factor algebra. For BN / MarkovNetwork / FactorGraph / JunctionTree models the engine's clique tree is recorded and checked "
+                 "(tree, covers every factor scope, running intersection, product of potentials = product of factors as a bag), then EVERY "
+                 "_update_beliefs call (hook H-BP) must be exactly the spec's Send step from the current spec state (new clique belief and "
+                 "sepset message entry by entry as exact fractions), the calibrated clique/sepset beliefs must be calibrated and proportional "
+                 "to the sum- resp. max-marginals of the instance's joint, and posterior/MAP queries with evidence by state name (joint T/F, "
+                 "str/int/tuple/mixed labels) must equal the conditional of the joint. All validation is done by TLC (Trace_MN.tla)."),
+        "note": "Connected graphs only; potentials small integers/rationals; shapes incl. cycles 5-7 (fill-in cliques) and duplicate factors; 4/8 hash seeds.",
+        "technique": "TLA+ belief-update machine; hook-level traces of the real engine validated step by step by TLC",
+        "design_ref": "6/C02",
+    },
+    "C14": {
+        "text": ("Conversions are recorded from the real code and validated by TLC against spec/MNLib.tla on the instance's exact joint: BN->MN "
+                 "(edges = moral graph, factor bag = CPDs), MN->FactorGraph and FactorGraph->MN (factor bag, factor/variable edges, target passes "
+                 "its own check_model), triangulation under H1-H6 and explicit orders (chordal supergraph on the same nodes, Chordal = perfect "
+                 "elimination order exists), ->JunctionTree from BN/MN/FG (connected tree, cliques cover every factor scope, running "
+                 "intersection, product of clique potentials equals the product of ALL factors counting duplicates, state names kept), and the "
+                 "partition function."),
+        "note": "Graph shapes up to 7 variables incl. duplicate value-identical factors; clique trees only for connected graphs; known finding: MN.to_factor_graph target fails its own check_model (pinned by an existing test).",
+        "technique": "TLA+ structural/distributional predicates; recorded conversion traces validated by TLC",
+        "design_ref": "6/C14",
+    },
 }
 
 NOT_APPLICABLE = {}
-HOOK_COMMITS = ["2121f06", "2905ba4"]
+HOOK_COMMITS = ["177d1bb", "2121f06", "2905ba4"]
